@@ -105,6 +105,23 @@ class Source:
                 s += 1
         return Region(self, s, e)
 
+    def block_of(self, fn_region, head):
+        """Region of the `{ .. }` block that follows the text `head` (unique inside fn_region), e.g. `for f in files `."""
+        a = self._unique(head, fn_region.start, fn_region.end) + len(head)
+        b = self.text.find("{", a, fn_region.end)
+        if b < 0 or self.text[a:b].strip():
+            raise LostAnchor("no block right after %r in %s" % (head, self.rel))
+        return Region(self, b, match_brace(self.text, b))
+
+    def stmt_with_block(self, fn_region, head):
+        """Region of the statement that starts with `head` (unique inside fn_region) and ends with the `{ .. }` block
+        opened on that line, e.g. `match root_idx {`."""
+        a = self._unique(head, fn_region.start, fn_region.end)
+        b = self.text.find("{", a, fn_region.end)
+        if b < 0:
+            raise LostAnchor("no block after %r in %s" % (head, self.rel))
+        return Region(self, a, match_brace(self.text, b))
+
     def let_init(self, fn_region, let_prefix):
         """Expression slice: the initialiser of the `let` statement starting with `let_prefix` (e.g. `let x =`), unique
         inside fn_region: everything after the `=` up to the `;` at nesting depth 0."""
@@ -435,7 +452,7 @@ VERIFICATION_ERRORS = re.compile(
     r"postcondition not satisfied|precondition not satisfied|assertion failed|possible arithmetic (under|over)flow|"
     r"invariant not satisfied|possible division by zero|decreases not satisfied|index out of bounds|"
     r"possible bit shift|recommendation not met|unreachable|constructed value may fail|could not prove termination|"
-    r"loop invariant|assert_by|cannot show|not satisfied", re.I)
+    r"loop invariant|assert_by|cannot show|not satisfied|unable to prove post-?condition", re.I)
 TOOL_LIMIT = re.compile(r"resource limit|rlimit|timed? ?out|unsupported|not supported|does not support|not yet supported", re.I)
 OB_MARK = re.compile(r"//\s*@ob\s+(\S+)")
 SCAN_WORDS = ["assume(", "admit(", "external_body", "assume_specification", "axiom", "external_type_specification",
